@@ -17,7 +17,8 @@ def gen_req(rnd, tier):
             p["prog"] = (extra + p["prog"])[:max(room + len(extra), len(extra))][:1 << p["arch"]["O"]]
             p["arch"]["ops"] = simlib.ops_for(p["prog"], ["j"])
     ticks = 40
-    return {"sim": {"bm": spec, "ticks": ticks, "env": simlib.gen_env(rnd, spec, ticks, spec["rsize"])},
+    # half of the simulations also ask for the per-processor report (config:show_pc): the text VM.Step returns is then compared too
+    return {"sim": {"bm": spec, "ticks": ticks, "env": simlib.gen_env(rnd, spec, ticks, spec["rsize"]), "showpc": rnd.random() < 0.5},
             "perms": 8 if tier == "quick" else 60, "conc": 4 if tier == "quick" else 8, "seed": rnd.randrange(1 << 30),
             "gomaxprocs": [1, 2, 4, 16]}
 
@@ -45,11 +46,11 @@ def run(res, a):
         orders += len(r.get("permbad") or [])
         for k, t in enumerate(r.get("permbad") or []):
             if t >= 0:
-                viol.append(("state after tick %d differs when the processors are started in another order (forced schedule %d)" % (t, k), q))
+                viol.append(("state or step report after tick %d differs when the processors are started in another order (forced schedule %d)" % (t, k), q))
                 break
         for k, t in enumerate(r.get("concbad") or []):
             if t >= 0:
-                viol.append(("state after tick %d differs when %d simulations of the machine run concurrently" % (t, q["conc"]), q))
+                viol.append(("state or step report after tick %d differs when %d simulations of the machine run concurrently" % (t, q["conc"]), q))
                 break
         pairs.append((q["sim"], r["base"]))
     # the report of a complete single-shot simulation must not depend on the run either (output order, values)
@@ -71,19 +72,24 @@ def run(res, a):
         elif len(r.get("distinct") or []) > 1:
             viol.append(("25 runs of SinglePipelineSimulate on one machine give different reports: %s" % r["distinct"][:3], {"sim": q}))
     # single-shot simulations with opcode delays (one SimDelays object, degenerate distributions so that the result is a function
-    # of the machine), sequentially and as eight concurrent callers sharing that object: one report, the same in both
+    # of the machine), sequentially and as sixteen concurrent callers sharing that object: one report, the same in both
     dl_reqs = []
     for q in rep_reqs[:2 if a.tier == "quick" else 6]:
-        delays = {"rset": {str(rnd.choice([1, 2, 3])): 1.0}, "r2owa": {str(rnd.choice([1, 2, 4])): 1.0}, "nop": {"1": 0.5}}
+        # every distribution has a single possible delay (forty entries, one non-zero weight that is not 1)
+        def dist(dv):
+            d_ = {str(k_): 0.0 for k_ in range(1, 41)}
+            d_[str(dv)] = rnd.choice([0.5, 2.0, 3.0])
+            return d_
+        delays = {"rset": dist(rnd.choice([1, 2, 3])), "r2owa": dist(rnd.choice([1, 2, 4])), "nop": dist(1), "j": dist(rnd.choice([1, 2]))}
         dl_reqs.append(dict(q, n=4, conc=0, delays=delays))
-        dl_reqs.append(dict(q, n=24, conc=8, delays=delays))
+        dl_reqs.append(dict(q, n=160, conc=16, delays=delays))
     pdl = C.sh([C.BMH, "c17"], input="".join(json.dumps(r) + "\n" for r in dl_reqs), timeout=1800, check=False)
     dl = C.jsonl(pdl.stdout) if pdl.stdout.strip() else []
     if pdl.returncode != 0 or len(dl) != len(dl_reqs):
         k = min(len(dl), len(dl_reqs) - 1)
         why = [l for l in pdl.stderr.splitlines() if l.startswith("fatal error") or l.startswith("panic")]
-        viol.append(("the process running %s single-shot simulations with shared opcode delays dies: %s"
-                     % ("concurrent" if dl_reqs[k]["conc"] else "sequential", (why or [pdl.stderr[-300:]])[0]), {"sim": dl_reqs[k]}))
+        viol.append(("the process running single-shot simulations with shared opcode delays (four in sequence, then 160 from sixteen concurrent "
+                     "callers) dies: %s" % (why or [pdl.stderr[-300:]])[0], {"sim": dl_reqs[min(k | 1, len(dl_reqs) - 1)]}))
     else:
         for j in range(0, len(dl_reqs), 2):
             sq, cq = dl[j], dl[j + 1]
@@ -91,10 +97,19 @@ def run(res, a):
             if sq.get("err") or cq.get("err"):
                 viol.append(("SinglePipelineSimulate with opcode delays fails: %s" % (sq.get("err") or cq.get("err")), {"sim": dl_reqs[j + 1]}))
             elif len(sq.get("distinct") or []) != 1 or (cq.get("distinct") or []) != sq["distinct"]:
-                viol.append(("single-shot simulations with the same opcode delays give different reports: sequential %s, eight concurrent callers %s"
+                viol.append(("single-shot simulations with the same opcode delays give different reports: sequential %s, sixteen concurrent callers %s"
                              % (sq.get("distinct"), (cq.get("distinct") or [])[:3]), {"sim": dl_reqs[j + 1]}))
     bad, compared = simlib.model_mismatches("C09", pairs)
     race = None
+    if a.tier == "quick" and not viol:
+        # the race detector on the shared-delay scenario only (an incremental build; the thorough tier runs everything under it)
+        rb = C.build_harness(race=True)
+        small = [dict(q, n=min(q["n"], 32), conc=min(q["conc"], 8)) for q in dl_reqs[:2]]
+        p = C.sh([rb, "c17"], input="".join(json.dumps(r) + "\n" for r in small), timeout=1200, check=False)
+        race = "DATA RACE" in p.stderr
+        if race:
+            viol.append(("the race detector reports a data race between single-shot simulations sharing opcode delays: %s"
+                         % p.stderr[p.stderr.find("DATA RACE"):][:600], {"sim": small[-1]}))
     if a.tier == "thorough":
         rb = C.build_harness(race=True)
         p = C.sh([rb, "c09"], input="".join(json.dumps(r) + "\n" for r in reqs[:20]), timeout=3000, check=False)
